@@ -6,7 +6,7 @@
 // serve: findBackend, TLSProxyHandler, wait loop; behind bfe_tls via bfe_util.MockServer) between a scripted
 // client and a scripted backend on loopback TCP.
 //
-// op     : <ws|tls>;pc=<hex>;pb=<hex>;s=<step>,<step>,...      step = c:<hex> | b:<hex> | xc | xb
+// op     : <ws|tls|tlsr>;pc=<hex>;pb=<hex>;s=<step>,<step>,...      step = c:<hex> | b:<hex> | xc | xb
 //
 //	pc: bytes the client sends in the SAME write as the upgrade request (ws) / right behind the handshake (tls)
 //	pb: bytes the backend sends in the SAME write as its 101 response (ws) / immediately on accept (tls)
@@ -142,6 +142,76 @@ func setup() {
 	tlsSrv.Config.TLSNextProto = make(map[string]func(*bfe_http.Server, *bfe_tls.Conn, bfe_http.Handler))
 	tlsSrv.Config.TLSNextProto["stream"] = bfe_stream.NewProtoHandler(&bfe_stream.Server{BalanceHandler: balance})
 	tlsSrv.StartTLS()
+	primeResume()
+}
+
+// coalesceConn lets the first write (ClientHello) through and then holds every write back until release();
+// the first write after release() goes out together with everything held, in ONE Write on the socket.
+type coalesceConn struct {
+	net.Conn
+	mu   sync.Mutex
+	n    int
+	hold bool
+	buf  []byte
+}
+
+func (c *coalesceConn) Write(p []byte) (int, error) {
+	c.mu.Lock()
+	defer c.mu.Unlock()
+	c.n++
+	if c.n == 1 {
+		return c.Conn.Write(p)
+	}
+	if c.hold {
+		c.buf = append(c.buf, p...)
+		return len(p), nil
+	}
+	if len(c.buf) == 0 {
+		return c.Conn.Write(p)
+	}
+	out := append(c.buf, p...)
+	c.buf = nil
+	if _, err := c.Conn.Write(out); err != nil {
+		return 0, err
+	}
+	return len(p), nil
+}
+
+func (c *coalesceConn) release() { c.mu.Lock(); c.hold = false; c.mu.Unlock() }
+
+func (c *coalesceConn) flush() error {
+	c.mu.Lock()
+	defer c.mu.Unlock()
+	out := c.buf
+	c.buf = nil
+	if len(out) == 0 {
+		return nil
+	}
+	_, err := c.Conn.Write(out)
+	return err
+}
+
+// resumeCfg carries the client session cache; primeResume runs one full handshake through the stream tunnel so
+// that the cache holds a session ticket of the proxy.
+var resumeCfg = &bfe_tls.Config{InsecureSkipVerify: true, NextProtos: []string{"stream"},
+	ClientSessionCache: bfe_tls.NewLRUClientSessionCache(8)}
+
+func primeResume() {
+	// same construction as the tlsr cases (bfe_tls.Client over a dialled conn), so that the cache key matches
+	raw, err := net.Dial("tcp", tlsSrv.Listener.Addr().String())
+	if err != nil {
+		panic("prime: " + err.Error())
+	}
+	c := bfe_tls.Client(raw, resumeCfg)
+	if err := c.Handshake(); err != nil {
+		panic("prime: " + err.Error())
+	}
+	select {
+	case bk := <-backendCh:
+		bk.Close()
+	case <-time.After(wait):
+	}
+	c.Close()
 }
 
 const upgradeReq = "GET /tunnel HTTP/1.1\r\nHost: verif.local\r\nUpgrade: websocket\r\nConnection: Upgrade\r\n" +
@@ -172,7 +242,7 @@ type halfCloser interface{ CloseWrite() error }
 func exec(op string) string {
 	once.Do(setup)
 	f := strings.Split(op, ";")
-	if len(f) != 4 || (f[0] != "ws" && f[0] != "tls") || !strings.HasPrefix(f[1], "pc=") ||
+	if len(f) != 4 || (f[0] != "ws" && f[0] != "tls" && f[0] != "tlsr") || !strings.HasPrefix(f[1], "pc=") ||
 		!strings.HasPrefix(f[2], "pb=") || !strings.HasPrefix(f[3], "s=") {
 		return "bad-op"
 	}
@@ -209,6 +279,16 @@ func exec(op string) string {
 
 	var cli net.Conn
 	var err error
+	var bk net.Conn
+	defer func() {
+		if bk == nil { // failed before taking the backend connection: do not leave it to the next case
+			select {
+			case c := <-backendCh:
+				c.Close()
+			case <-time.After(time.Second):
+			}
+		}
+	}()
 	if f[0] == "ws" {
 		cli, err = net.Dial("tcp", wsL.Addr().String())
 		if err != nil {
@@ -217,7 +297,7 @@ func exec(op string) string {
 		if _, err = cli.Write(append([]byte(upgradeReq), pc...)); err != nil {
 			return "err:write-upgrade"
 		}
-	} else {
+	} else if f[0] == "tls" {
 		cfg := &bfe_tls.Config{InsecureSkipVerify: true, NextProtos: []string{"stream"}}
 		cli, err = bfe_tls.Dial("tcp", tlsSrv.Listener.Addr().String(), cfg)
 		if err != nil {
@@ -228,9 +308,36 @@ func exec(op string) string {
 				return "err:write-pc"
 			}
 		}
+	} else {
+		// tlsr: RESUMED session (ticket from the priming connection); the client's final handshake flight
+		// (ChangeCipherSpec + Finished) is held back and goes out in the SAME write as its first application data
+		raw, err := net.Dial("tcp", tlsSrv.Listener.Addr().String())
+		if err != nil {
+			return "err:dial"
+		}
+		cw := &coalesceConn{Conn: raw, hold: true}
+		tc := bfe_tls.Client(cw, resumeCfg)
+		raw.SetDeadline(time.Now().Add(wait))
+		if err := tc.Handshake(); err != nil {
+			raw.Close()
+			return "err:tls-handshake:" + err.Error()
+		}
+		raw.SetDeadline(time.Time{})
+		if !tc.ConnectionState().DidResume {
+			raw.Close()
+			return "err:not-resumed"
+		}
+		cli = tc
+		cw.release()
+		if len(pc) > 0 {
+			if _, err = cli.Write(pc); err != nil {
+				return "err:write-pc"
+			}
+		} else if err := cw.flush(); err != nil {
+			return "err:flush"
+		}
 	}
 	defer cli.Close()
-	var bk net.Conn
 	select {
 	case bk = <-backendCh:
 	case <-time.After(wait):
@@ -261,12 +368,14 @@ func exec(op string) string {
 		switch s.kind {
 		case "c":
 			if _, err := cli.Write(s.data); err != nil {
-				return "err:client-write"
+				closed = "c" // the tunnel is gone: stop the script, report what arrived
+				break
 			}
 			sentC += len(s.data)
 		case "b":
 			if _, err := bk.Write(s.data); err != nil {
-				return "err:backend-write"
+				closed = "b"
+				break
 			}
 			sentB += len(s.data)
 		case "xc": // the client has seen everything sent to it so far, then closes; its own bytes may be in flight
@@ -339,8 +448,11 @@ func size(r *vh.Rand) int {
 
 func gen(r *vh.Rand) string {
 	proto := "ws"
-	if r.Chance(2, 5) {
+	switch r.Intn(20) {
+	case 0, 1, 2, 3, 4:
 		proto = "tls"
+	case 5, 6, 7, 8, 9, 10:
+		proto = "tlsr" // resumed session, first data coalesced with the client's Finished
 	}
 	pc, pb := &pat{}, &pat{pos: 1 << 20}
 	var pcb, pbb []byte
@@ -350,6 +462,9 @@ func gen(r *vh.Rand) string {
 			n = r.Range(3800, 4400) // fill the request's bufio buffer: request (173 bytes) + pipelined data around 4096
 		}
 		pcb = pc.take(n, 'c')
+	}
+	if proto == "tlsr" && len(pcb) == 0 && !r.Chance(1, 6) {
+		pcb = pc.take(size(r), 'c')
 	}
 	if r.Chance(2, 3) {
 		n := size(r)
